@@ -33,8 +33,31 @@ type finding struct {
 	Status   string `json:"status"`
 	Property string `json:"property"`
 	Key      string `json:"key"`
-	What     string `json:"what"`
-	Commit   string `json:"commit,omitempty"`
+	// KeyGlob (only honoured for status "finding") identifies a family of failing histories
+	// that differ in timing parameters only: '*' matches any run of characters.
+	KeyGlob string `json:"key_glob,omitempty"`
+	What    string `json:"what"`
+	Commit  string `json:"commit,omitempty"`
+}
+
+// globMatch: '*' matches any (possibly empty) run of characters; everything else is literal.
+func globMatch(pat, s string) bool {
+	parts := strings.Split(pat, "*")
+	if len(parts) == 1 {
+		return pat == s
+	}
+	if !strings.HasPrefix(s, parts[0]) {
+		return false
+	}
+	s = s[len(parts[0]):]
+	for _, p := range parts[1 : len(parts)-1] {
+		i := strings.Index(s, p)
+		if i < 0 {
+			return false
+		}
+		s = s[i+len(p):]
+	}
+	return strings.HasSuffix(s, parts[len(parts)-1])
 }
 
 // Run collects what a check did.
@@ -333,7 +356,7 @@ func (r *Run) Finish() {
 		v := r.viols[k]
 		isKnown := false
 		for _, f := range known {
-			if f.Key == v.Key {
+			if f.Key == v.Key || (f.KeyGlob != "" && globMatch(f.KeyGlob, v.Key)) {
 				isKnown = true
 			}
 		}
